@@ -81,7 +81,7 @@ PROPS['C27'] = dict(
                 'The model follows the repaired code (fixes/01: every balance() variable is assigned; former known finding KF-C27-nil-balance-panic, now "fixed"). '
                 'Panics of the bytecode VM that an AST-level semantics cannot express (pop[T] type assertion, stack underflow, BUMP index, default branches, type assertions in ResolveResources/ResolveBalances, "stack not empty") '
                 'are explicit Panic outcomes of Vm.v/VmRun.v and C27_vm_no_panic proves that NO compiled program reaches one, for any variables and store (C27_vm_stack_empty: the stack is empty at the end; C27_vm_fuel: one tick per instruction suffices). '
-                'Portion texts (script literals, variable values, metadata) are read by Lex.parse_portion, tied to machine.ParsePortionSpecific incl. zero denominators (error, never a panic); known finding KF-C27-portion-octal. '
+                'Portion texts (script literals, variable values, metadata) are read by Lex.parse_portion, tied to machine.ParsePortionSpecific incl. zero denominators (error, never a panic); the octal reading of leading-zero terms (KF-C27-portion-octal) was repaired by a fix: commit; the model reads both terms in base 10. '
                 'Gap: the byte-string front end (ANTLR) is exploration only.',
     technique='Coq proof (environment invariant + no-Panic by mutual structural induction over the AST) + differential run under recover()/timeout + front-end exploration',
     level_text='Full at AST level and at bytecode level: for every program and every input neither the semantics nor the compiled program on the bytecode VM (typed pops, BUMP, stack-empty check, resource resolution) ever panics, '
